@@ -221,10 +221,10 @@ class PandasModelBase(
         return res
 
     def _coalesce(self, a, b):
-        # where / if_else / mapv / concat hand back numpy arrays: columns, not scalars
-        if isinstance(a, numpy.ndarray):
+        # where / if_else / mapv / concat hand back numpy arrays, the date differences lists: columns, not scalars
+        if isinstance(a, (numpy.ndarray, list, tuple)):
             a = self.pd.Series(a)
-        if isinstance(b, numpy.ndarray):
+        if isinstance(b, (numpy.ndarray, list, tuple)):
             b = self.pd.Series(b)
         a_is_series = isinstance(a, self.pd.Series)
         b_is_series = isinstance(b, self.pd.Series)
